@@ -178,6 +178,15 @@ fn run_one(prog: &Value, out: &mut Out) {
     let gone: Vec<Id> = match damage.as_str() {
         "data" => lost_packs.iter().copied().collect(),
         "tree" => tree_packs.iter().copied().collect(),
+        // only sub-trees are lost: the parents' root trees stay loadable
+        "subtree" => tree_packs
+            .iter()
+            .copied()
+            .filter(|p| {
+                let data = store.get_raw(FileType::Pack, p).unwrap();
+                !parse_pack(&rk, *p, &data).hdr.unwrap_or_default().iter().any(|b| parents.iter().any(|sn| *sn.tree == b.id))
+            })
+            .collect(),
         _ => vec![],
     };
     if !gone.is_empty() {
